@@ -292,6 +292,7 @@ func (c *ctx) refConn(d model.Doc, i int) {
 		return
 	}
 	srvKey := []byte(adm.Key)
+	c.curDoc, c.curScope = &d, adm.Scope
 	quiet := !c.p.Scen.Stall && !c.p.Scen.Faulty && len(cs.WFault) == 0 && !w.timeout && !c.cancelledEarly() && c.allDelivered(id) && len(c.p.Park) == 0
 
 	// a failed or short write cuts a reply out of the stream the tap sees: from the first
@@ -540,6 +541,22 @@ func (c *ctx) checkRefReply(id int, pr plan.RefPred, rp model.Packet, srvKey []b
 		expDeny := statusIn(model.AuthorFail, e.Statuses) || statusIn(model.AuthorError, e.Statuses)
 		rq, _ := model.DecodeAuthorRequest(pr.Body)
 		desc := fmt.Sprintf("user %q args %q", rq.User, rq.Args)
+		if c.curDoc != nil && (!statusIn(v.Status, e.Statuses) || (granted && e.ArgsKnown && !sameArgs(v.Args, e.Args))) {
+			// the answer is not the one of the scope the connection is bound to: is it the
+			// answer the same user would get as a member of another scope?
+			for _, sc := range c.curDoc.Secrets {
+				if sc.Name == c.curScope {
+					continue
+				}
+				rc2 := model.NewRefConn(*c.curDoc, c.curScope)
+				rc2.Scope = sc.Name
+				e2 := rc2.Step(pr.H, pr.Body, false)
+				if e2.Verdict == "reply" && e2.Band == "" && statusIn(v.Status, e2.Statuses) && (!granted || (e2.ArgsKnown && sameArgs(v.Args, e2.Args))) {
+					c.v("C13/rights-of-another-scope", "conn %d is bound to scope %s, yet %s is answered (status %d args %q) as in scope %s (bound scope would give %v %q): users do not stay scoped", id, c.curScope, desc, v.Status, v.Args, sc.Name, e.Statuses, e.Args)
+					break
+				}
+			}
+		}
 		switch {
 		case granted && !expGrant:
 			c.vs("C11/granted-against-policy", band, "conn %d: authorization granted (status %d args %q) for %s; policy says FAIL", id, v.Status, v.Args, desc)
